@@ -134,6 +134,9 @@ def ctx_text(d, fpy: bool):
         neg = '' if mirror else f", neg_maxval={bound(d['neg'])}"
         return (f"fp.MPBFixedContext({d['nmin']}, {bound(d['pos'])}, {rm}, {ov}{neg}, enable_nan={d['en']}, enable_inf={d['ei']}, "
                 f"enable_neg_zero={d['nz']}{subs})")
+    if f == 'exp':
+        iv = f", inf_value={_fv_py(d.get('iv'))}" if d.get('iv') is not None else ''
+        return f"fp.ExpContext({d['nbits']}, {d['eoff']}, {rm}, {ov}{iv})"
     if f == 'fixed': return f"fp.FixedContext({d['signed']}, {d['scale']}, {d['nbits']}, {rm}, {ov}{subs})"
     if f == 'smfixed': return f"fp.SMFixedContext({d['scale']}, {d['nbits']}, {rm}, {ov}{subs})"
     raise ValueError(f)
@@ -223,6 +226,8 @@ def corpus():
     cs.append(dict(fam='fixed', signed=True, scale=-2, nbits=6, rm='rne', ov='saturate', k=0, nv=Z, iv=ONE))
     cs.append(dict(fam='smfixed', scale=0, nbits=4, rm='rtn', ov='saturate', k=0, nv=ONE, iv=Z))
     cs.append(dict(fam='fixed', signed=True, scale=0, nbits=8, rm='rna', ov='saturate', k=0, nv=None, iv=None))
+    cs.append(dict(fam='exp', nbits=4, eoff=0, rm='rne', ov='overflow', iv=None))
+    cs.append(dict(fam='exp', nbits=3, eoff=-2, rm='rtz', ov='saturate', iv=None))
     # MPFixed / MPBFixed: signed zero on/off, specials on/off, substitutes
     cs.append(dict(fam='mpfix', nmin=-9, rm='rne', k=0, nz=True, en=True, ei=True, nv=None, iv=None))
     cs.append(dict(fam='mpfix', nmin=-5, rm='rtp', k=0, nz=True, **fx))
@@ -425,7 +430,7 @@ def shape_of(d, strategy_seq, operand, want, got):
     # a zero negative bound with a signed zero: a negative overflow lands on the range end `+0`, the emitted
     # `copysign` turns it into `-0` (`_sign_survives` does not refuse the context)
     if ('unfold_neg_zero' in strategy_seq and d.get('fam') == 'mpbfix' and d.get('neg', (True, 0, 1))[2] == 0
-            and want == 'ok (n zero 0)' and got == 'ok (n zero 1)'):
+            and want != got and want.replace('(n zero 0)', '(n zero 1)') == got):
         return 'unfold_neg_zero-zero-negative-bound'
     return 'lowering-other:' + strategy_seq[-1]
 
